@@ -95,7 +95,11 @@ fn counters(cx: &mut Ctx, rng: &mut Rng) {
                     log.push(format!("L{}.inc()", i));
                 }
                 5 | 6 => {
+                    // through the inherent method or through the LocalMetric trait
+                    let via_trait = rng.chance(1, 2);
                     match &w {
+                        LC::F(_, ls) if via_trait => prometheus::local::LocalMetric::flush(ls[i].as_ref().unwrap()),
+                        LC::I(_, ls) if via_trait => prometheus::local::LocalMetric::flush(ls[i].as_ref().unwrap()),
                         LC::F(_, ls) => ls[i].as_ref().unwrap().flush(),
                         LC::I(_, ls) => ls[i].as_ref().unwrap().flush(),
                     }
@@ -223,7 +227,11 @@ fn histograms(cx: &mut Ctx, rng: &mut Rng) {
                     log.push(format!("L{}.observe({})", i, v));
                 }
                 5 | 6 => {
-                    locals[i].as_ref().unwrap().flush();
+                    if rng.chance(1, 2) {
+                        prometheus::local::LocalMetric::flush(locals[i].as_ref().unwrap());
+                    } else {
+                        locals[i].as_ref().unwrap().flush();
+                    }
                     shared.absorb(accs[i].as_ref().unwrap());
                     accs[i] = Some(HRef::default());
                     log.push(format!("L{}.flush()", i));
@@ -328,7 +336,10 @@ fn counter_vecs(cx: &mut Ctx, rng: &mut Rng) {
                     log.push(format!("V{}.with_label_values([{:?}]).inc_by({})", i, t, amount));
                 }
                 5 | 6 => {
+                    let via_trait = rng.chance(1, 2);
                     match &w {
+                        CV::F(_, ls) if via_trait => prometheus::local::LocalMetric::flush(ls[i].as_ref().unwrap()),
+                        CV::I(_, ls) if via_trait => prometheus::local::LocalMetric::flush(ls[i].as_ref().unwrap()),
                         CV::F(_, ls) => ls[i].as_ref().unwrap().flush(),
                         CV::I(_, ls) => ls[i].as_ref().unwrap().flush(),
                     }
@@ -445,7 +456,11 @@ fn histogram_vecs(cx: &mut Ctx, rng: &mut Rng) {
                     log.push(format!("V{}.with_label_values([{:?}]).observe({})", i, t, v));
                 }
                 5 | 6 => {
-                    locals[i].as_ref().unwrap().flush();
+                    if rng.chance(1, 2) {
+                        prometheus::local::LocalMetric::flush(locals[i].as_ref().unwrap());
+                    } else {
+                        locals[i].as_ref().unwrap().flush();
+                    }
                     for (_, (child, acc)) in caches[i].as_mut().unwrap().iter_mut() {
                         child_val[*child].absorb(acc);
                         *acc = HRef::default();
